@@ -115,6 +115,26 @@ def _frame_bytes(cmd):
 
 
 def feed(job):
+    """job = (proto, data, chunks) -> one record; or ("pair", jobA, jobB): two receiver objects of the same process fed
+    alternately, chunk by chunk (two serial ports) -> list of two records, each judged on its own stream"""
+    if job[0] == "pair":
+        from dali.driver import serial as ds
+        subs = []
+        for proto, data, chunks in job[1:]:
+            p = ds.DriverLubaRs232.LubaProtocol() if proto == "luba" else ds.DriverSCIRS232.SCIRS232Protocol()
+            subs.append({"proto": proto, "data": data, "chunks": list(chunks), "p": p, "child": ds.DistributorQueue(p.queue_rx_dali),
+                         "pos": 0, "ci": 0, "exc": []})
+        while any(s_["ci"] < len(s_["chunks"]) for s_ in subs):
+            for s_ in subs:
+                if s_["ci"] < len(s_["chunks"]):
+                    size = s_["chunks"][s_["ci"]]
+                    s_["ci"] += 1
+                    try:
+                        s_["p"].data_received(bytes(s_["data"][s_["pos"]:s_["pos"] + size]))
+                    except Exception as e:  # noqa: recorded
+                        s_["exc"].append([s_["ci"], type(e).__name__])
+                    s_["pos"] += size
+        return [_collect(s_["proto"], s_["data"], s_["chunks"], s_["p"], s_["child"], s_["exc"]) for s_ in subs]
     proto, data, chunks = job
     from dali.driver import serial as ds
     if proto == "luba":
@@ -130,6 +150,11 @@ def feed(job):
         except Exception as e:  # noqa: recorded
             exc.append([ci, type(e).__name__])
         pos += size
+    return _collect(proto, data, chunks, p, child, exc)
+
+
+def _collect(proto, data, chunks, p, child, exc):
+    from dali.driver import serial as ds
     got = {"raw": [], "conf": [], "info": [], "cmd": []}
 
     def drain(q):
@@ -171,6 +196,14 @@ def jobs_for(tier, seed):
             data = [rng.getrandbits(8) for _ in range(rng.randrange(1, 120))] + data[-8:]     # pure random + trailer
         for ch in chunkings(rng, len(data)):
             jobs.append((proto, data, ch))
+    # two receivers of one process (two serial ports) fed alternately in small chunks: each must deliver its own stream
+    for k in range(40 if tier == "quick" else 600):
+        proto = "luba" if k % 3 else "sci"
+        da = luba_stream(rng) if proto == "luba" else sci_stream(rng)
+        db = luba_stream(rng) if proto == "luba" else sci_stream(rng)
+        ca = [min(3, len(da) - i) for i in range(0, len(da), 3)]
+        cb = [min(2, len(db) - i) for i in range(0, len(db), 2)]
+        jobs.append(("pair", (proto, da, ca), (proto, db, cb)))
     # long homogeneous runs (several hundred bytes): many items of one kind arrive before anybody fetches them
     for count in (33, 40, 70):
         for kind in ("back", "conf", "cmd"):
@@ -232,7 +265,10 @@ def run(tier, seed, replay=None):
         else:
             c = replay["case"]
             jobs = [(c["proto"], c["bytes"], c["chunks"])]
-        recs = core.pmap(feed, jobs, chunksize=64)
+        res = core.pmap(feed, jobs, chunksize=64)
+        recs = []
+        for r_ in res:
+            recs += r_ if isinstance(r_, list) else [r_]
         for ix, rec in enumerate(recs, 1):
             rec["id"] = ix
         paths, counts = core.shard_records(recs, sc, "c19", nshards=core.NCPU if len(recs) > 32 else 1)
